@@ -209,6 +209,24 @@ Proof.
   apply d_bool_str.
 Qed.
 
+(* dict KEYS are coercion positions too: the key of an entry is loaded by the documented
+   coercion of the key annotation (str, int, Enum and str-mixin Enum / StrEnum by value), with
+   its concrete result type, for every engine and at every depth (compose with C04_everywhere) *)
+Theorem C04_dict_key_ref :
+  forall O e kt key k' (g : jv -> option (res pv)) v v',
+  doc_scalar O e (sty_of_kty kt) (JStr key) (Ok k') -> g v = Some (Ok v') ->
+  lift O e (CDict kt CHole) g (JDict [(key, v)]) = Some (Ok (VDict [(k', v')])).
+Proof.
+  intros O e kt key k' g v v' Hk Hv. cbn [lift doc_items option_map doc_entries]. rewrite Hv.
+  rewrite (scalar_ref O e _ _ _ Hk). reflexivity.
+Qed.
+Print Assumptions C04_dict_key_ref.
+Example C04_dict_key_enum_example O :
+  load O V1 (TList (TDict (KStrEnum [(JStr (S "red"), S "SRED"); (JStr (S "Blue"), S "SBLUE")]) (TS SInt)))
+       (JList [JDict [(S "Blue", JStr (S "1")); (S "red", JFloat (FDy 2 0))]])
+  = Ok (VList [VDict [(VEnum (S "SBLUE"), VInt 1); (VEnum (S "SRED"), VInt 2)]]).
+Proof. reflexivity. Qed.
+
 (* EnvWizard: a string that does not start with '[' splits on ',' and every piece is stripped;
    a string that does not start with '{' and whose pieces all contain '=' (distinct keys)
    becomes the dict of stripped key / value pairs *)
